@@ -482,7 +482,22 @@ fn compose(rng: &mut Rng, user: Option<bool>) -> u64 {
 
 fn raw_gen(len: u64, seed: u64, first: u64) -> Vec<u64> {
     let mut r = Rng::new(seed);
-    (0..len).map(|i| if i == 0 { first } else if r.chance(50) { compose(&mut r, None) } else { r.next() }).collect()
+    // null entries occur inside and at the end of real tables (upper half of a system descriptor
+    // with a base below 4 GiB, reserved slots): they are entries like any other
+    let zero_tail = r.chance(25);
+    (0..len)
+        .map(|i| {
+            if i == 0 {
+                first
+            } else if (zero_tail && i + 1 == len) || r.chance(10) {
+                0
+            } else if r.chance(50) {
+                compose(&mut r, None)
+            } else {
+                r.next()
+            }
+        })
+        .collect()
 }
 
 fn tss_ptr(rng: &mut Rng) -> u64 {
@@ -659,7 +674,8 @@ pub fn gen(seed: u64) -> Replay {
                 g.sels.clear();
             }
             1 => {
-                let n = 8192 - g.len - rng.below(6);
+                // (wrapping on purpose: both build flavours must generate the same steps)
+                let n = 8192u64.wrapping_sub(g.len).wrapping_sub(rng.below(6));
                 g.fill(&mut rng, n);
             }
             2..=5 => {
